@@ -12,7 +12,7 @@ from __future__ import annotations
 import itertools
 import json
 
-from rdflib import Dataset, Graph
+from rdflib import ConjunctiveGraph, Dataset, Graph
 from rdflib.term import BNode, URIRef
 
 from .. import run as R
@@ -42,6 +42,11 @@ def docs(label="b"):
     d["nt-one"] = ("nt", "_:%s <%s> <%s> .\n" % (L, P, O), one, False)
     d["nt-two"] = ("nt", "_:%s <%s> <%s> .\n_:%s <%s> <%s> .\n" % (L, P, O, L, Q, O), two, False)
     d["nq-across"] = ("nquads", "_:%s <%s> <%s> <%s> .\n_:%s <%s> <%s> <%s> .\n" % (L, P, O, G1, L, Q, O, G2), across, True)
+    # a quad document may name rdflib's own default-graph identifier like any other IRI
+    DEF = "urn:x-rdflib:default"
+    d["nq-default-label"] = ("nquads", "_:%s <%s> <%s> <%s> .\n_:%s <%s> <%s> <%s> .\n_:%s <%s> <%sa> .\n" % (L, P, O, DEF, L, Q, O, G1, L, Q, EX),
+                             [(b, i(P), i(O), None), (b, i(Q), i(O), i(G1)), (b, i(Q), i(EX + "a"), None)], True)
+    d["trig-default-label"] = ("trig", "@prefix : <%s> .\n<%s> { _:%s :p :o . }\n:g1 { _:%s :q :o . }\n" % (EX, DEF, L, L), [(b, i(P), i(O), None), (b, i(Q), i(O), i(G1))], True)
     d["nq-one"] = ("nquads", "_:%s <%s> <%s> .\n" % (L, P, O), one, True)
     d["ttl-one"] = ("turtle", "@prefix : <%s> .\n_:%s :p :o .\n" % (EX, L), one, False)
     d["ttl-two"] = ("turtle", "@prefix : <%s> .\n_:%s :p :o .\n_:%s :q :o .\n" % (EX, L, L), two, False)
@@ -87,15 +92,20 @@ def docs(label="b"):
 
 DOC_NAMES = sorted(docs())
 PRESTATES = ["empty", "has-b"]
-TARGETS = ["graph", "dataset", "named"]
+TARGETS = ["graph", "dataset", "named", "named-bare", "cg"]  # named-bare: as "named", but the Dataset's default graph is empty; cg: a ConjunctiveGraph, observed as the union of its graphs
 H = EX + "h"  # "named": the parse call is made on the named graph H of a Dataset that has other content; the whole Dataset is observed
 
 
 def make_target(target, prestate):
-    if target == "graph":
-        t = Graph(bind_namespaces="none")
+    if target in ("graph", "cg"):
+        t = Graph(bind_namespaces="none") if target == "graph" else ConjunctiveGraph()
         if prestate == "has-b":
             t.add((BNode("b"), URIRef(P), URIRef(EX + "a")))
+    elif target == "named-bare":
+        t = Dataset()
+        if prestate == "has-b":
+            t.add((BNode("b"), URIRef(P), URIRef(EX + "a"), URIRef(G1)))
+        t.add((URIRef(EX + "a"), URIRef(P), URIRef(EX + "a"), URIRef(H)))
     else:
         t = Dataset()
         if prestate == "has-b":
@@ -120,7 +130,7 @@ def bnodes_of(rs):
 def expected_rows(exp, target):
     out = set()
     for s, p, o, g in exp:
-        out.add((tuple(s), tuple(p), tuple(o), ("I", H) if target == "named" else None if (g is None or target == "graph") else tuple(g)))
+        out.add((tuple(s), tuple(p), tuple(o), ("I", H) if target.startswith("named") else None if (g is None or target in ("graph", "cg")) else tuple(g)))
     return out
 
 
@@ -144,25 +154,25 @@ def run_history(target, prestate, names, horizon=10.0):
         fmt, text, exp, quad_only = docs(label)[name]
         if quad_only and target == "graph":
             continue
-        if quad_only and target == "named" and name not in ("nq-one", "hext-one"):
-            continue  # (where the graphs of a quad document go when the sink is a named graph is not specified; the two one-triple documents are kept for monotonicity)
         steps += 1
         cls = "%s|%s" % (fmt, "label-collides-with-existing-node-or-earlier-document" if (dyn or idx > 0 or ("B", "b") in bnodes_of(before))
                          else "first-document")
         try:
             with seams.watchdog(horizon):
-                (t.graph(URIRef(H)) if target == "named" else t).parse(data=text, format=fmt)
+                (t.graph(URIRef(H)) if target.startswith("named") else t).parse(data=text, format=fmt)
         except Exception as e:  # noqa: BLE001
             return (("%s|parse-raises|%s" % (cls, type(e).__name__), {"exc": repr(e)[:300], "document": text}), steps)
         after = rows(t)
         if not before <= after:
             return (("%s|existing-quads-removed-or-altered" % cls, {"lost": sorted(before - after, key=repr), "document": text}), steps)
         new = after - before
-        if quad_only and target == "named":
-            continue  # monotonicity only
         want = expected_rows(exp, target)
+        if quad_only and target.startswith("named"):
+            # which graphs the statements of a quad document go to when the sink is a named graph is not specified; that every statement
+            # of the document arrives in some graph is: the added quads, without their graph names, are the document's triples
+            new, want = {r[:3] + (None,) for r in new}, {r[:3] + (None,) for r in want}
         ok = iso(new, want)
-        if not ok and fmt == "trix" and target != "graph":
+        if not ok and fmt == "trix" and target not in ("graph", "cg"):
             # a TriX <graph> without a name may be read as a fresh blank-node-named graph instead of the default graph
             ok = iso(new, {r[:3] + (("B", "unnamed-graph") if r[3] is None else r[3],) for r in want})
         if not ok:
@@ -237,7 +247,7 @@ def run(ctx):
                        "transitions = parse calls. Non-trivial: history of >= 2 documents or non-empty pre-state." % (maxlen, len(alphabet)))
     ctx.sample({"history": ["dataset", "has-b", ["trix-one", "hext-one@existing"]]})
     ctx.assumptions += ["the document's own graph is given by hand next to each document (independent of rdflib's parsers)",
-                        "quad-only documents are not parsed into a plain Graph"]
+                        "quad-only documents are not parsed into a plain Graph; parsed into a named graph of a Dataset, only the triples (not the graph names) of the added quads are compared"]
 
 
 def replay(ctx, case):
@@ -255,6 +265,6 @@ META = {
             "identifiers already present in the target (incl. rdflib-generated ones), into Graph and Dataset targets with and without content; "
             "every step checks monotonicity and that the added quads are the document's graph on fresh blank nodes.",
     "note": "Document alphabet of ~35 hand-written documents (+ dynamic-label variants): label once / twice / across graphs / forward reference / anonymous nodes, in nine syntaxes; "
-            "three targets (Graph, Dataset, a named graph of a Dataset); every history of <= 2 parse calls, and of 3 on one document per syntax (quick) / on the whole alphabet (thorough).",
+            "five targets (Graph, Dataset, a named graph of a Dataset whose default graph holds triples / is empty, ConjunctiveGraph); quad documents into a named graph: every statement arrives in some graph; every history of <= 2 parse calls, and of 3 on one document per syntax (quick) / on the whole alphabet (thorough).",
     "technique": "exhaustive enumeration of parse-call histories over a document alphabet with an isomorphism oracle on the added quads",
 }
